@@ -104,7 +104,7 @@ V(prop, pred, e, detail) ==
 (* a predicate that several properties share *)
 VAll(ps, suffix, e, detail) == UNION {V(p, p \o suffix, e, detail) : p \in ps}
 
-IdealProps == {"C02", "C03", "C04", "C05", "C08", "C09", "C10", "C11", "C13", "C14", "C15", "C16"}
+IdealProps == {"C02", "C03", "C04", "C19", "C05", "C08", "C09", "C10", "C11", "C13", "C14", "C15", "C16"}
 NoFault(c) == c \notin g.fault
 
 (* A deviation that consists ONLY of extra rows whose keys were INSERTed by a rolled-back / failed transaction  *)
@@ -229,7 +229,7 @@ OnOpenDone(e) ==
             THEN VAll({"C03", "C04", "C14"}, "_OpenSeesAcked", e, [missing |-> Get(g.ackedAt, c, {}) \ facts, versions |-> vers]) ELSE {}
       \* C03: a final open of the quiescent bucket contains every acknowledged commit
       v7 == IF Has(e, "tag") /\ e.tag = "final" /\ ~(FactsOfVersions(g.acked) \subseteq facts)
-            THEN V("C03", "C03_EventuallyContained", e, [missing |-> FactsOfVersions(g.acked) \ facts, versions |-> vers]) ELSE {}
+            THEN VAll({"C03", "C19"}, "_EventuallyContained", e, [missing |-> FactsOfVersions(g.acked) \ facts, versions |-> vers]) ELSE {}
   IN [g2 |-> g2, v |-> v1 \cup v2 \cup v3 \cup v4 \cup v5 \cup v6 \cup v7]
 
 OnStmt(e) ==
@@ -436,7 +436,7 @@ OnConnGet(e) ==
       a == Get(g.attr, c, [deadline |-> -1, write_time |-> -1])
   IN [g2 |-> g,
       v |-> IF e.outcome # "ok" \/ e.deadline # a.deadline \/ e.write_time # a.write_time
-            THEN V("C15", "C15_ReadBack", e, [expected |-> a, deadline |-> e.deadline, write_time |-> e.write_time]) ELSE {}]
+            THEN VAll({"C15", "C19"}, "_ReadBack", e, [expected |-> a, deadline |-> e.deadline, write_time |-> e.write_time]) ELSE {}]
 
 (* s3db_vacuum *)
 RECURSIVE AncOf(_, _)
